@@ -75,6 +75,20 @@ Theorem supports_adaptsto_same :
 Proof. exact supports_adaptsto_same. Qed.
 Print Assumptions supports_adaptsto_same.
 
+(* ... and so does the adaptable-object check when Supports / Instance(adapt=...) is one alternative of a compound
+   trait (validate_trait_complex case 19): 0 = Either(Supports(P), Int), 1 = Either(Int, Supports(P)),
+   2 = Either(Instance(P, adapt="default"), Int) *)
+Theorem compound_supports_same :
+  forall E fuel,
+    (forall v, run_api E fuel ApiAdapt = OValue v <-> run_api E fuel (TraitEither 0) = OStored v (Some v)) /\
+    (forall v, run_api E fuel ApiAdapt = OValue v <-> run_api E fuel (TraitEither 1) = OStored v (Some v)) /\
+    (forall v, v <> VDefault -> (run_api E fuel ApiAdapt = OValue v <-> run_api E fuel (TraitEither 2) = OStored v None)) /\
+    (run_api E fuel ApiAdapt = OAdaptationError <-> run_api E fuel (TraitEither 0) = OTraitError) /\
+    (run_api E fuel ApiAdapt = OAdaptationError <-> run_api E fuel (TraitEither 1) = OTraitError) /\
+    (run_api E fuel ApiAdapt = OAdaptationError <-> run_api E fuel (TraitEither 2) = OStored VDefault None).
+Proof. exact compound_same. Qed.
+Print Assumptions compound_supports_same.
+
 (* single-step choice, for an edge sort that never leaves a better edge behind a worse one in the first
    expansion: smallest MRO distance, then no strictly more specific from-protocol at that distance *)
 Theorem specific_first_single_step :
